@@ -100,7 +100,9 @@ def check_affix(case, ctx):
     import pregex.meta.essentials as es
     cls, affixes, glob = case['cls'], case['affixes'], case['is_global']
     arg = affixes if len(affixes) != 1 or case.get('as_list') else affixes[0]
-    what = f'{cls}({arg!r}, is_global={glob})'
+    what = f'{cls}({arg!r}, is_global={glob})' + (' [affixes passed as str-subclass instances]' if case.get('sub') else '')
+    if case.get('sub'):
+        arg = [dsl.TaggedStr(a) for a in arg] if isinstance(arg, list) else dsl.TaggedStr(arg)
     if any(a == '' for a in affixes):
         ctx.case(case, False)
         return
@@ -222,7 +224,7 @@ def gen_case(draw):
             ch = st.sampled_from(WORDCH[:13] if not glob else WORDCH)
             aff = st.lists(ch, min_size=1, max_size=3).map(''.join)
             return {'mode': 'affix', 'cls': cls, 'is_global': glob, 'affixes': draw(st.one_of(st.lists(aff, min_size=1, max_size=3), st.lists(aff, min_size=1, max_size=3), st.lists(aff, min_size=17, max_size=130))),
-                    'as_list': draw(st.booleans()), 'text': draw(sentence(ascii_only=not glob))}
+                    'as_list': draw(st.booleans()), 'sub': draw(st.sampled_from([False, False, True])), 'text': draw(sentence(ascii_only=not glob))}
         aff = dsl.literal_strategy(('meta',), 1, 4)
         singles = st.lists(st.sampled_from(list('-.,_^]\\[a+|')), min_size=2, max_size=4, unique=True)      # several one-character affixes
         return {'mode': 'affix', 'cls': cls, 'is_global': glob, 'affixes': draw(st.one_of(st.lists(aff, min_size=1, max_size=2), singles, singles)),
